@@ -41,6 +41,32 @@ impl Regex {
         Self::new(re, flags, Language::XSD)
     }
 
+    /// Verification hook: like [`Regex::xpath`] / [`Regex::xsd`] but without
+    /// `Operation::optimize` and with the literal prefix, initial character
+    /// class, preconditions, minimum length and the start-anchor flag cleared.
+    #[cfg(regexml_verif)]
+    pub fn verif_unoptimized(re: &str, flags: &str, xpath: bool) -> Result<Self, Error> {
+        let language = if xpath { Language::XPath } else { Language::XSD };
+        let re_flags = ReFlags::new(flags, language)?;
+        let pattern = re.chars().collect();
+        let mut re_compiler = ReCompiler::new(pattern, re_flags);
+        re_compiler.verif_no_optimize = true;
+        let re_program = re_compiler.compile()?;
+        let mut matcher = ReMatcher::new(&re_program, "");
+        let matches_empty_string = matcher.is_match();
+        Ok(Self {
+            re_program,
+            matches_empty_string,
+        })
+    }
+
+    /// Verification hook: the compiled operator tree and the compile-time
+    /// facts of this regex, as JSON.
+    #[cfg(regexml_verif)]
+    pub fn verif_facts(&self) -> String {
+        crate::verif::facts_json(&self.re_program)
+    }
+
     /// Returns `true` if the argument matches this regular expression.
     pub fn is_match(&self, haystack: &str) -> bool {
         let mut matcher = self.matcher(haystack);
